@@ -172,8 +172,6 @@ def cov(run, evaluations, nontrivial, rule, samples, extra=None, exhaustive=Fals
 def c03(run, replay=None):
     tier = run.tier
     base = list(S.all_tasks(tier))
-    if tier == "quick":
-        base = sample(run, base, 1500)
     cases = []
     for nodes, t in base:
         for chk in ("global", "task"):
@@ -239,8 +237,6 @@ def fs_snapshot_equal(io):
 def c04(run, replay=None):
     tier = run.tier
     base = list(S.all_tasks(tier))
-    if tier == "quick":
-        base = sample(run, base, 2000)
     cases = [(nodes, [t], "none") for nodes, t in base]
     # every 3- and 4-digit octal mode on a representative state (touch onto absent; copy onto existing file)
     octs = list(S.octal_sweep_tasks())
@@ -366,8 +362,6 @@ def random_sequences(run, n):
 def c05(run, replay=None):
     tier = run.tier
     base = list(S.all_tasks(tier))
-    if tier == "quick":
-        base = sample(run, base, 1500)
     cases = [(nodes, [t, t], "none") for nodes, t in base]
     nseq = 300 if tier == "quick" else 5000
     seqs = random_sequences(run, nseq)
@@ -431,8 +425,6 @@ def c05(run, replay=None):
 def c06(run, replay=None):
     tier = run.tier
     base = list(S.all_tasks(tier))
-    if tier == "quick":
-        base = sample(run, base, 1500)
     cases = []
     for nodes, t in base:
         cases.append((nodes, [t], "task"))
